@@ -201,6 +201,7 @@ func alignAt(a []interface{}, i int) interface{} {
 
 func runC08(x *X) {
 	runC08Items(x)
+	runC08ByHand(x)
 	var texts []string
 	texts = append(texts, c08Atoms...)
 	for _, a := range c08Atoms {
